@@ -135,18 +135,19 @@ def prelude(nl=None):
   /// (under Kani NATIVE stays false and every ledger assertion is vacuous; CBMC's --memory-leak-check decides).
   pub mod led {
     use core::alloc::Layout;
-    pub static mut ON: bool = false;
+    use super::M;
+    pub static mut LON: bool = false;
     pub static mut NATIVE: bool = false;
     pub static mut LIVE: isize = 0;
     pub static mut TOTAL: usize = 0;
     pub static mut OVERFLOW: bool = false;
-    static mut P: [*mut u8; @NL@] = [core::ptr::null_mut(); @NL@];
-    static mut SZ: [usize; @NL@] = [0; @NL@];
-    static mut AL: [usize; @NL@] = [0; @NL@];
-    static mut ST: [u8; @NL@] = [0; @NL@]; // 0 empty, 1 live, 2 freed
-    pub unsafe fn begin() { ON = true; }
+    static mut LP: [*mut u8; @NL@] = [core::ptr::null_mut(); @NL@];
+    static mut LSZ: [usize; @NL@] = [0; @NL@];
+    static mut LAL: [usize; @NL@] = [0; @NL@];
+    static mut LST: [u8; @NL@] = [0; @NL@]; // 0 empty, 1 live, 2 freed
+    pub unsafe fn begin() { LON = true; }
     pub unsafe fn on_alloc(p: *mut u8, size: usize, align: usize) {
-      if !ON || p.is_null() { return; }
+      if !LON || p.is_null() { return; }
       TOTAL += 1; LIVE += 1;
       // an address handed out again (native allocators recycle): forget the freed entry
 @RECYCLE@
@@ -159,7 +160,7 @@ def prelude(nl=None):
     pub static mut E_BAD_LAYOUT: bool = false;
     /// returns false when the block must not be handed to the real allocator again
     pub unsafe fn on_dealloc(p: *mut u8, size: usize, align: usize) -> bool {
-      if !ON { return true; }
+      if !LON { return true; }
       let mut found = false;
 @REMOVE@
       if found { return true; }
@@ -172,21 +173,21 @@ def prelude(nl=None):
     }
     /// NATIVE playback only: what CBMC's --memory-leak-check decides under Kani
     pub unsafe fn native_exit_check() {
-      if NATIVE && LIVE != 0 { ON = false; panic!("C06|leak|native ledger: a block allocated during the harness is still live at its end"); }
+      if NATIVE && LIVE != 0 { LON = false; panic!("C06|leak|native ledger: a block allocated during the harness is still live at its end"); }
     }
     pub struct Nat;
     unsafe impl core::alloc::GlobalAlloc for Nat {
       unsafe fn alloc(&self, l: Layout) -> *mut u8 {
         let p = std::alloc::GlobalAlloc::alloc(&std::alloc::System, l);
-        if ON { NATIVE = true; on_alloc(p, l.size(), l.align()); }
+        if LON { NATIVE = true; on_alloc(p, l.size(), l.align()); }
         p
       }
       unsafe fn dealloc(&self, p: *mut u8, l: Layout) {
-        if ON {
+        if LON {
           NATIVE = true;
           let ok = on_dealloc(p, l.size(), l.align());
           if !ok || E_BAD_LAYOUT {
-            ON = false;
+            LON = false;
             if E_DOUBLE_FREE { panic!("C06|double-free|native ledger: dealloc of a block that was already freed"); }
             if E_BAD_LAYOUT { panic!("C06|bad-layout|native ledger: dealloc layout differs from the layout the block was allocated with"); }
             panic!("C06|bad-free|native ledger: dealloc of a block this execution never allocated");
@@ -201,33 +202,40 @@ def prelude(nl=None):
 
   /// Handle ledger: every `[resource-drop]` intrinsic call (generator hook) lands here.
   pub mod hl {
-    pub static mut N: usize = 0;
-    pub static mut H: [u32; @NH@] = [0; @NH@];
-    pub static mut K: [u8; @NH@] = [0; @NH@];
-    pub unsafe fn on_drop(kind: u8, h: u32) { if N < @NH@ { H[N] = h; K[N] = kind; } N += 1; }
+    use super::M;
+    pub static mut HN: usize = 0;
+    pub static mut HH: [u32; @NH@] = [0; @NH@];
+    pub static mut HKIND: [u8; @NH@] = [0; @NH@];
+    pub unsafe fn on_drop(kind: u8, h: u32) { if HN < @NH@ { HH[HN] = h; HKIND[HN] = kind; } HN += 1; }
     pub unsafe fn count(kind: u8, h: u64) -> usize {
       let mut c = 0usize;
 @COUNT@
       c
     }
   }
-'''.replace("@RECYCLE@", unroll(nl, "      if ST[#] == 2 && P[#] == p { ST[#] = 0; }")) \
-   .replace("@INSERT@", unroll(nl, "      if !done && ST[#] == 0 { P[#] = p; SZ[#] = size; AL[#] = align; ST[#] = 1; done = true; }")) \
-   .replace("@REMOVE@", unroll(nl, "      if !found && ST[#] == 1 && P[#] == p { found = true; ST[#] = 2; LIVE -= 1; "
-                                   "if SZ[#] != size || AL[#] != align { E_BAD_LAYOUT = true; } }")) \
-   .replace("@FREED@", unroll(nl, "      if ST[#] == 2 && P[#] == p { freed = true; }")) \
-   .replace("@COUNT@", unroll(NH, "      if # < N && K[#] == kind && H[#] as u64 == h { c += 1; }")) \
+'''.replace("@RECYCLE@", unroll(nl, "      if LST[#] == 2 && LP[#] == p { LST[#] = 0; }")) \
+   .replace("@INSERT@", unroll(nl, "      if !done && LST[#] == 0 { LP[#] = p; LSZ[#] = size; LAL[#] = align; LST[#] = 1; done = true; }")) \
+   .replace("@REMOVE@", unroll(nl, "      if !found && LST[#] == 1 && LP[#] == p { found = true; LST[#] = 2; LIVE -= 1; "
+                                   "if LSZ[#] != size || LAL[#] != align { E_BAD_LAYOUT = true; } }")) \
+   .replace("@FREED@", unroll(nl, "      if LST[#] == 2 && LP[#] == p { freed = true; }")) \
+   .replace("@COUNT@", unroll(NH, "      if # < HN && HKIND[#] == kind && HH[#] as u64 == h { c += 1; }")) \
    .replace("@NL@", str(nl)).replace("@NH@", str(NH))
 
 
 # Heap accounting WITHOUT stubbing the allocator.  The first version of this engine replaced alloc::alloc::{alloc,
-# alloc_zeroed, dealloc_nonnull, realloc_nonnull} by recording shims (-Z stubbing).  That turned out to be unreliable in
-# Kani 0.68: for some crate identities (the same source with the guest-rust dependency at /tmp/wt_rustgen instead of
-# /repo) a call site inside liballoc (Vec::push -> finish_grow) was routed neither to the shim nor to a working
-# allocator model but to an undefined function (nondet pointer, allocation not recorded), i.e. false alarms that depend
-# on symbol hashes.  Leaks are therefore decided by CBMC's own `--memory-leak-check` at harness exit, double free /
-# use after free / out-of-bounds / dealloc size by the CBMC and Kani built-in checks.  The ledger below only runs in
-# NATIVE concrete playback (fed by a #[global_allocator]) to confirm a Kani counterexample natively.
+# alloc_zeroed, dealloc_nonnull, realloc_nonnull} by recording shims feeding a ledger kept in `static mut`s.  That ran
+# into a Kani 0.68 code-generation quirk (also hit by the rtkani engine): a constant of the code under test whose
+# bytes equal the initializer of a harness `static mut` is compiled as a READ OF THAT STATIC.  `RawVecInner::new_in`'s
+# zero capacity was compiled as a read of the ledger's `TOTAL: usize = 0`, so after the first recorded allocation every
+# `Vec::new()` had capacity 1 and a dangling pointer -- false "pointer invalid / bad free" failures that came and went
+# with symbol hashes (the guest-rust dependency at /tmp/wt_rustgen instead of /repo).  Consequences:
+#   * leaks are decided by CBMC's own `--memory-leak-check` at harness exit, double free / use after free /
+#     out-of-bounds / dealloc size by the CBMC and Kani built-in checks; the ledger below only runs in NATIVE concrete
+#     playback (fed by a #[global_allocator]) to confirm a Kani counterexample natively;
+#   * every harness `static mut` is wrapped as `M(<unique non-zero magic>, value)` (guard_statics), so that no
+#     initializer can equal a constant of the code under test;
+#   * after every run the goto binary of each harness is linted (kani.alias_lint): a function outside this crate that
+#     references one of the crate's statics makes the harness inconclusive.
 STUBS = []
 # String::from_utf8 (reached through the generated `string_lift` under debug assertions): core's validator
 # (word-at-a-time scan with align_offset arithmetic) costs CBMC minutes for a 2-byte string; it is replaced by a
@@ -405,7 +413,7 @@ def func_harness(world, f, exports, post, traits, opts, L, S, res_ids):
                      "C07|own-out|a handle returned to the host is transferred, not dropped")
     if hs:
         tot = " + ".join("((%s) as usize)" % g for g, _, _ in list(ctx.own_in) + list(ctx.borrow_in))
-        hgen.kassert(ctx, "true", "hl::N == %s" % (tot or "0"), "C07|total|no other handle is dropped")
+        hgen.kassert(ctx, "true", "hl::HN == %s" % (tot or "0"), "C07|total|no other handle is dropped")
     # ---- result ----
     if f.result is not None and not struct_fail:
         if nres > spec.MAX_FLAT_RESULTS:
@@ -428,7 +436,7 @@ def func_harness(world, f, exports, post, traits, opts, L, S, res_ids):
     elif f.result is not None and has_heap(f.result):
         struct_fail.append("C06|post-return|the result owns heap buffers but no __post_return_%s was generated" % name)
     hgen.kassert(ctx, "led::NATIVE", "led::LIVE == 0", "C06|leak|native ledger: no block is live after post-return")
-    hgen.kassert(ctx, "true", "hl::N <= %d" % NH, "H|ledger|handle ledger overflow (harness bound)")
+    hgen.kassert(ctx, "true", "hl::HN <= %d" % NH, "H|ledger|handle ledger overflow (harness bound)")
     covers = [("true", "reached the end")]
     for v in in_vals[:2]:
         hgen.interesting_covers(v, covers, "in")
@@ -478,8 +486,8 @@ def seq_harness(hname, mk, take, handle, kind, what):
     let mut taken = false;
     let nops: u8 = kani::any(); kani::assume(nops <= 3);%s
     drop(r);
-    kani::assert(!taken || hl::N == 0, "C07|seq|a handle that was given away (take_handle) is never dropped");
-    kani::assert(taken || (hl::N == 1 && hl::count(%d, h as u64) == 1), "C07|seq|a handle that was never given away is dropped exactly once");
+    kani::assert(!taken || hl::HN == 0, "C07|seq|a handle that was given away (take_handle) is never dropped");
+    kani::assert(taken || (hl::HN == 1 && hl::count(%d, h as u64) == 1), "C07|seq|a handle that was never given away is dropped exactly once");
     kani::assert(!led::NATIVE || led::LIVE == 0, "C06|leak|native ledger: no block is live at the end");
     kani::cover!(taken && nops == 3, "taken, three operations");
     kani::cover!(!taken && nops == 3, "never taken, three operations");
@@ -499,7 +507,7 @@ def lifecycle_harness(res, kind):
     // host: `[constructor]%(n)s` export -> %(c)s::new(T::new(v)) -> resource.new(rep) (hook) -> own handle returned
     let h = m::_export_constructor_%(s)s_cabi::<My%(c)s>(v as i32) as u32;
     kani::assert(HT_N == 1 && HT_LIVE[0] && HT_H[0] == h, "C07|export-new|the constructor export returns the handle resource.new issued for the boxed value");
-    kani::assert(hl::N == 0 && MY%(C)s_DROPS == 0, "C07|export-new|the handle is transferred to the host: neither handle nor value is dropped");
+    kani::assert(hl::HN == 0 && MY%(C)s_DROPS == 0, "C07|export-new|the handle is transferred to the host: neither handle nor value is dropped");
     kani::assert(!led::NATIVE || led::LIVE == 1, "C06|leak|native ledger: exactly the boxed representation is live");
     let mut cur_h = h; let mut cur_v = v; let mut idx = 0usize;
     let nops: u8 = kani::any(); kani::assume(nops <= 2);
@@ -512,10 +520,10 @@ def lifecycle_harness(res, kind):
       kani::assert(RE_SEEN == cur_v, "C07|export-rep|the user's value is reached through the handle (resource.rep)");
       if mode == 0 {
         kani::assert(back == cur_h, "C07|own-out|the same handle comes back");
-        kani::assert(hl::N == 0 && MY%(C)s_DROPS == 0, "C07|own-in|passing a handle through drops nothing");
+        kani::assert(hl::HN == 0 && MY%(C)s_DROPS == 0, "C07|own-in|passing a handle through drops nothing");
       } else {
         // into_inner + a new resource: old handle dropped once -> host runs the dtor on its rep; old value dropped once by the user
-        kani::assert(hl::count(%(k)d, cur_h as u64) == 1 && hl::N == 1, "C07|own-in|into_inner drops the consumed handle exactly once");
+        kani::assert(hl::count(%(k)d, cur_h as u64) == 1 && hl::HN == 1, "C07|own-in|into_inner drops the consumed handle exactly once");
         kani::assert(MY%(C)s_DROPS == 1 && MY%(C)s_LASTDROP == cur_v, "C07|export-dtor|the taken-out value is destroyed exactly once");
         kani::assert(HT_N == 2 && HT_LIVE[1] && HT_H[1] == back && !HT_LIVE[0], "C07|export-new|the new handle is the one resource.new issued");
         cur_h = back; cur_v = RE_NEWV; idx = 1; consumed = 1;
@@ -551,7 +559,7 @@ def import_calls_harness(res, kind):
       let x = mi::%(c)s::from_handle(h);
       mi::eat(x);
       kani::assert(IMP_CALLS == 1 && (IMP_A[0] & 0xffffffff) == h as u64, "C07|import-own|the handle reaches the host");
-      kani::assert(hl::N == 0, "C07|import-own|an owned handle passed to an import is transferred, not dropped");
+      kani::assert(hl::HN == 0, "C07|import-own|an owned handle passed to an import is transferred, not dropped");
     } else if which == 1 {
       // borrow<%(n)s> passed to an import: handle() only; the owner still drops it exactly once
       let x = mi::%(c)s::from_handle(h);
@@ -559,17 +567,17 @@ def import_calls_harness(res, kind):
       let r = mi::peek(&x);
       kani::assert(IMP_CALLS == 1 && (IMP_A[0] & 0xffffffff) == h as u64, "C07|import-borrow|the handle reaches the host");
       kani::assert(r as u64 == (IMP_RET & 0xffffffff), "C05|res|value");
-      kani::assert(hl::N == 0, "C07|import-borrow|a borrowed handle is not dropped by the call");
+      kani::assert(hl::HN == 0, "C07|import-borrow|a borrowed handle is not dropped by the call");
       drop(x);
-      kani::assert(hl::N == 1 && hl::count(%(k)d, h as u64) == 1, "C07|import-borrow|the owner drops it exactly once afterwards");
+      kani::assert(hl::HN == 1 && hl::count(%(k)d, h as u64) == 1, "C07|import-borrow|the owner drops it exactly once afterwards");
     } else if which == 2 {
       // own<%(n)s> returned by an import: received once, dropped exactly once with its Rust value
       IMP_RET = h2 as u64;
       let x = mi::mk();
       kani::assert(x.handle() == h2, "C07|import-result|the returned handle is the one the host sent");
-      kani::assert(hl::N == 0, "C07|import-result|not dropped while owned");
+      kani::assert(hl::HN == 0, "C07|import-result|not dropped while owned");
       drop(x);
-      kani::assert(hl::N == 1 && hl::count(%(k)d, h2 as u64) == 1, "C07|import-result|dropped exactly once with its Rust value");
+      kani::assert(hl::HN == 1 && hl::count(%(k)d, h2 as u64) == 1, "C07|import-result|dropped exactly once with its Rust value");
     } else {
       // constructor + method
       let v: u32 = kani::any();
@@ -581,9 +589,9 @@ def import_calls_harness(res, kind):
       let g = x.get();
       kani::assert(IMP_CALLS == 2 && (IMP_A[0] & 0xffffffff) == h2 as u64, "C07|import-borrow|`self` reaches the host as the handle");
       kani::assert(g as u64 == (IMP_RET & 0xffffffff), "C05|res|value");
-      kani::assert(hl::N == 0, "C07|import-borrow|a method call drops nothing");
+      kani::assert(hl::HN == 0, "C07|import-borrow|a method call drops nothing");
       drop(x);
-      kani::assert(hl::N == 1 && hl::count(%(k)d, h2 as u64) == 1, "C07|import-result|dropped exactly once with its Rust value");
+      kani::assert(hl::HN == 1 && hl::count(%(k)d, h2 as u64) == 1, "C07|import-result|dropped exactly once with its Rust value");
     }
     kani::assert(!led::NATIVE || led::LIVE == 0, "C06|leak|native ledger: no block is live at the end");
     kani::cover!(which == 0, "own to import"); kani::cover!(which == 1, "borrow to import");
@@ -815,6 +823,47 @@ def glue_items(w_rs):
     return out
 
 
+def _scan_static(text, i):
+    """text[i:] starts with 'static mut '; -> (name, type, init, end index after ';')"""
+    j = i + len("static mut ")
+    k = text.index(":", j)
+    name = text[j:k].strip()
+    depth, t0, m = 0, k + 1, k + 1
+    while not (depth == 0 and text.startswith(" = ", m)):
+        depth += text[m] in "<([" and 1 or (text[m] in ">)]" and -1 or 0)
+        m += 1
+    ty = text[t0:m].strip()
+    m += 3
+    i0, depth = m, 0
+    while not (depth == 0 and text[m] == ";"):
+        depth += text[m] in "([{" and 1 or (text[m] in ")]}" and -1 or 0)
+        m += 1
+    return name, ty, text[i0:m].strip(), m + 1
+
+
+def guard_statics(text, start_magic=0):
+    """Every `static mut NAME: T = INIT;` of the harness text becomes `static mut NAME: M<T> = M(<magic>, INIT);` and every
+    use `NAME` becomes `NAME.1`: no harness static has an initializer whose bytes could equal a constant of the code under test."""
+    names, out, i, k = [], [], 0, start_magic
+    while True:
+        j = text.find("static mut ", i)
+        if j < 0:
+            out.append(text[i:])
+            break
+        name, ty, init, end = _scan_static(text, j)
+        k += 1
+        out.append(text[i:j] + "static mut %s\x00: M<%s> = M(0x5255_5354_4745_0000u64 + %d, %s);" % (name, ty, k, init))
+        names.append(name)
+        i = end
+    text = "".join(out)
+    for n in sorted(set(names), key=len, reverse=True):
+        text = re.sub(r"(?<![\w.])%s\b(?!\x00)" % re.escape(n), n + ".1", text)
+    return text.replace("\x00", ""), names, k
+
+
+M_DECL = "#[derive(Clone, Copy)] pub struct M<T>(pub u64, pub T);"
+
+
 def build_lib(world, w_rs, opts, L, S, tier, nl=None):
     """-> (lib.rs text, {harness name: meta(+ 'text')}, problems)"""
     mod_text = hgen.module_text(w_rs, ["exports", "t", "p", "x"])
@@ -889,10 +938,15 @@ def build_lib(world, w_rs, opts, L, S, tier, nl=None):
         "  use super::t::p::ri as mi;" if (world.imp_res or world.imp_funcs) else "",
         "  use super::_rt;" if has_rt else "",
         prelude(nl), HOST_STATE, host_drop_fn(world), gi])
+    hmod, names, k = guard_statics(common + "\n" + M_DECL + "\n" + "\n\n".join(parts))
+    vh_g = vh
+    for n in sorted(set(names), key=len, reverse=True):
+        vh_g = re.sub(r"(?<![\w.])%s\b" % re.escape(n), n + ".1", vh_g)
     lib = "\n".join([
         "#![allow(warnings)]", "#![no_std]", '#![recursion_limit = "512"]', "extern crate alloc;", "extern crate std;",
-        "pub mod b {", w_rs, common, "\n\n".join(parts), "  // @PLAYBACK@", "}", "}",
-        "#[cfg(kani)]", vh, ""])
+        "pub mod b {", w_rs, hmod, "  // @PLAYBACK@", "}", "}",
+        "#[cfg(kani)]", vh_g, ""])
+    common = common + "\0guarded statics v1"
     # cache key: everything a harness can execute -- the generated text with the glue of the OTHER exported functions
     # (`_export_<g>_cabi`, `__post_return_<g>`: independent items the harness never calls) blanked, the common harness
     # text, the mock host, the harness itself.  Resource harnesses call several exports: whole text.
